@@ -17,6 +17,13 @@ func C02(c *Ctx) int {
 		Job: JobOpts{Perturb: 9, EarlyWait: true, HoldPoints: []string{"process.start.triggered", "process.monitor.started", "process.monitor.cease", "process.wait.locked", "flow.start", "flow.flowtrace", "tracer.take", "tracer.subscribe"}}}); err != nil {
 		c.Infraf("%v", err)
 	}
+	// the forking token is consumed while the flows it forked are only just starting (their
+	// goroutines held at flow.start): completion must not be concluded in between
+	if err := c.TokenGameRound(fs, gen.ForkAtTheEdgeShapes(), RoundOpts{Label: "fork-at-the-edge", MaxSteps: 5, Reps: 6,
+		Features: []string{"wait"}, MaxWaits: 1,
+		Job: JobOpts{Perturb: 3, LingerMs: -1, HoldPoints: []string{"flow.start"}}}); err != nil {
+		c.Infraf("%v", err)
+	}
 	// cancel while the instance is parked at unanswered requests: no cease trace may follow
 	c.ParkedCancelRound(fs, ps, 3)
 	// level M: StartAll / monitor / wait-group / completion lock / waiters over every interleaving
